@@ -100,7 +100,33 @@ def run(seed_id, checks):
     json.dump(meta, open(os.path.join(d, "meta.json"), "w"), indent=1)
 
 
+def table():
+    """markdown table of every stored seeded change and what the checks reported for it"""
+    rows = []
+    for sid in sorted(os.listdir(os.path.join(VERIF, "seeded"))):
+        mp = os.path.join(VERIF, "seeded", sid, "meta.json")
+        if not os.path.exists(mp):
+            continue
+        m = json.load(open(mp))
+        res = m.get("check_results", {})
+        cells = []
+        for c, r in sorted(res.items()):
+            if r["exit"] == 0:
+                cells.append(f"{c}: **missed**")
+            elif "no-failing-input-found" in r["line"]:
+                cells.append(f"{c}: broken obligation {r['what']}, no failing input")
+            else:
+                cells.append(f"{c}: {r['what'].replace('fail:', '')}")
+        files = sorted(set(re.findall(r"^diff --git a/(\S+)", open(os.path.join(VERIF, "seeded", sid, "patch.diff")).read(), re.M)))
+        rows.append(f"| {sid} | {', '.join(f.replace('src/', '') for f in files)} | {m['needs_to_manifest']} | {'; '.join(cells)} |")
+    print("| seed | files changed | needs, to manifest | reported by |\n|---|---|---|---|")
+    print("\n".join(rows))
+
+
 if __name__ == "__main__":
+    if sys.argv[1] == "table":
+        table()
+        sys.exit(0)
     if sys.argv[1] == "confirm":
         sys.exit(0 if confirm(sys.argv[2], sys.argv[3], sys.argv[4], sys.argv[5], sys.argv[6]) else 1)
     elif sys.argv[1] == "run":
